@@ -82,3 +82,31 @@ package gitlab
 // is stored, differs from the stored message.
 //@   check [unchanged-comment-appends-nothing] event.Kind() == EventComment && errResolve == nil && comment != nil && comment.Message == text.Cleanup(event.(NoteEvent).Body) ==> cache.bugOps == old(cache.bugOps)
 //@   check [edited-comment-is-updated] event.Kind() == EventComment && errResolve == nil && comment != nil && comment.Message != text.Cleanup(event.(NoteEvent).Body) && result == nil ==> cache.bugOps == old(cache.bugOps) + 1
+
+// Finding the bug of an issue (C16: an import creates no new bug for an issue that was imported already): the
+// matcher recognises a bug by origin, issue number, instance and project - all four -, and a bug is created only
+// when the lookup said "not found" (an ambiguous or failing lookup is an error, not a reason to create).
+//@ func (*gitlabImporter).ensureIssue$1
+//@   props C16
+//@   requires excerpt != nil
+//@   modifies nothing
+//@   let md = excerpt.CreateMetadata
+//@   ensures [matches-origin-issue-instance-and-project] result == ((md != nil && ("origin" in md) ? md["origin"] : "") == "gitlab" && (md != nil && ("gitlab-id" in md) ? md["gitlab-id"] : "") == itoa(issue.IID) && (md != nil && ("gitlab-base-url" in md) ? md["gitlab-base-url"] : "") == ((gi.conf != nil && ("base-url" in gi.conf)) ? gi.conf["base-url"] : "") && (md != nil && ("gitlab-project-id" in md) ? md["gitlab-project-id"] : "") == ((gi.conf != nil && ("project-id" in gi.conf)) ? gi.conf["project-id"] : ""))
+//@ func (*gitlabImporter).ensureIssue
+//@   props C16
+//@   requires cache.requestUser == nil
+//@   assert at `b, _, err = repo.Bugs().NewRaw(` [created-only-when-not-found] typeof(err) == type[*entity.ErrNotFound]
+
+// Merging the event streams of an issue (C16: exactly the events the tracker holds are imported): the event sent on
+// is the head that is taken out of its slot - no head is dropped unsent and none is sent twice (that it is the earliest
+// of the heads needs the order axioms of time.Time and is not claimed).
+//@ func SortedEvents$1
+//@   props C16
+//@   assert at `heads[originChannel] = nil` [the-slot-cleared-holds-the-event-sent] 0 <= originChannel && originChannel < len(heads) && heads[originChannel] == earliestEvent && earliestEvent != nil
+//@   loop 1
+//@     invariant len(heads) == len(inputs) && fresh(heads)
+//@   loop 3
+//@     invariant len(heads) == len(inputs) && fresh(heads)
+//@   loop 2
+//@     invariant len(heads) == len(inputs) && fresh(heads)
+//@     invariant earliestEvent != nil ==> 0 <= originChannel && originChannel <= rangeindex && heads[originChannel] == earliestEvent
